@@ -1,7 +1,8 @@
 (** * C05 property theorems — statements only; proofs live in C05/StepProofs*.v. *)
 From Coq Require Import Reals ZArith List Bool.
 From Celer Require Import Base.Num Base.NumR Base.Vec3 C01.LedgerModel
-  C05.StepModel C05.StepProofs C05.StepProofs2 C05.StepRefute.
+  C05.StepModel C05.StepProofs C05.StepProofs2 C05.StepRefute C05.StatusCheck C05.StatusCheckProofs
+  C05.MfpProofs C05.Boundary C05.BoundaryProofs.
 Import ListNotations.
 Local Open Scope R_scope.
 
@@ -153,3 +154,101 @@ Theorem C05_physics_limit_le_mfp : forall mfp xs he es fx np,
   fst (calc_physics_step_limit (T:=R) false mfp xs he es fx np) <= mfp / xs.
 Proof. exact calc_limit_le_mfp. Qed.
 Print Assumptions C05_physics_limit_le_mfp.
+
+(** ** the repo's own debug checker (track/detail/StatusCheckExecutor.hh)
+
+    [status_check] mirrors the executor condition by condition; [check_step] applies it
+    after every action of one iteration of the step model (pre-step, along-step kernel,
+    discrete-select, interaction, boundary, tracking cut).  For every conforming input
+    (live slot; physics limit action in {range, discrete, fixed limiter}; discrete
+    selection yields a model or the rejection/failure action; a track that failed its
+    initialisation carries the tracking-cut action) and every action registry in which
+    discrete-select is a pre_post action, models/boundary/tracking-cut are post actions
+    and range/failure/limiter actions are implicit, EVERY call passes: enabling the
+    checker cannot throw on a conforming history.
+    Checker condition -> C05 clause: "status was improperly reverted" and "cannot be
+    initializing after pre-step" = "within one step a track's status only moves forward"
+    ([C05_status_monotone]); "missing post-step action" / "out of order" = the step limit
+    and the action that set it are chosen in pre-step and only replaced by a later-ordered
+    limiter ([C05_limit_only_shrinks], [C05_step_limit_only_lowers]); "missing / changed
+    along-step action" = the along-step variant is fixed in pre-step (no clause of its own). *)
+Theorem C05_status_checker_accepts_model :
+  forall tb orders along0 fixed (i : sinput R) (s : sim R),
+  table_ok tb orders -> conforming i s ->
+  Forall (fun r => r = CPass) (check_step tb orders noinf along0 fixed i s).
+Proof. exact status_checker_accepts_model. Qed.
+Print Assumptions C05_status_checker_accepts_model.
+
+(** non-vacuity: a registry and an input satisfy the hypotheses; and the checker model
+    does reject each kind of non-conforming transition *)
+Theorem C05_status_checker_nonvacuous :
+  table_ok ex_tb ex_orders /\ conforming ex_input (ex_sim Initializing ANone).
+Proof. exact (conj ex_table_ok ex_conforming). Qed.
+Print Assumptions C05_status_checker_nonvacuous.
+
+(** ** interaction-MFP bookkeeping (PhysicsTrackView::interaction_mfp: PreStepExecutor,
+    calc_physics_step_limit, TrackUpdater, DiscreteSelectExecutor) *)
+
+(** the remaining MFP never becomes negative when the pre-step limit is <= mfp/xs
+    ([C05_physics_limit_le_mfp]) -- the along-step can only shorten the step *)
+Theorem C05_mfp_stays_nonneg : forall i (s0 : sim R),
+  mstat s0 = Alive -> 0 < in_xs i -> 0 <= mmfp s0 ->
+  mstep s0 <= mmfp s0 / in_xs i ->
+  0 <= mmfp (along_step_act i s0).
+Proof. exact mfp_stays_nonneg. Qed.
+Print Assumptions C05_mfp_stays_nonneg.
+
+(** TrackUpdater's CELER_ASSERT(mfp > 0): holds whenever the step ends strictly before
+    the interaction point *)
+Theorem C05_mfp_stays_positive : forall i (s0 : sim R),
+  mstat s0 = Alive -> 0 < in_xs i -> 0 < mmfp s0 ->
+  mstep (along_step_act i s0) < mmfp s0 / in_xs i ->
+  0 < mmfp (along_step_act i s0).
+Proof. exact mfp_stays_positive. Qed.
+Print Assumptions C05_mfp_stays_positive.
+
+(** a moving particle reaches discrete-select EXACTLY when the interaction limit of
+    calc_physics_step_limit won and nothing shortened the step; the MFP is then exhausted *)
+Theorem C05_discrete_selected_iff_mfp_exhausted :
+  forall mfp xs he es fx np i (s0 : sim R),
+  mstat s0 = Alive -> 0 < xs -> in_xs i = xs -> mmfp s0 = mfp ->
+  (mstep s0, mpost s0) = calc_physics_step_limit false mfp xs he es fx np ->
+  mstep s0 <> 0 ->
+  mE (along_step i s0) <> 0 ->
+  (mpost (along_step_act i s0) = ADiscrete
+   <-> (mpost s0 = ADiscrete /\ mstep s0 < in_next i))
+  /\ (mpost (along_step_act i s0) = ADiscrete ->
+      mmfp s0 - mstep (along_step_act i s0) * in_xs i = 0).
+Proof. exact discrete_selected_iff_mfp_exhausted. Qed.
+Print Assumptions C05_discrete_selected_iff_mfp_exhausted.
+
+(** discrete-select resets the MFP, the next pre-step samples a new one exactly then *)
+Theorem C05_mfp_reset_and_resampled : forall i i' (s : sim R),
+  mpost s = ADiscrete -> mstat s = Alive ->
+  mmfp (discrete_select i s) = 0
+  /\ mmfp (pre_step i' (discrete_select i s)) = in_newmfp i'
+  /\ (0 < mmfp s -> mmfp (pre_step i' s) = mmfp s).
+Proof. exact mfp_reset_and_resampled. Qed.
+Print Assumptions C05_mfp_reset_and_resampled.
+
+(** ** the failure branches of BoundaryExecutor (geometry failure / volume without
+    material -> CoreTrackView::apply_errored -> tracking cut in the same iteration) *)
+Theorem C05_boundary_failure_is_cut : forall gf nm i (s : sim R),
+  mpost s = ABoundary -> mstat s = Alive ->
+  (gf = true \/ (nm = true /\ in_nextvol i <> None)) ->
+  let s' := tracking_cut_act (boundary_act_full gf nm i s) in
+  mstat s' = Killed /\ mE s' = 0
+  /\ mdep s' - mdep s = weight (mkTrack (mE s) (mm s) (manti s))
+  /\ mstep s' = mstep s /\ mtime s' = mtime s /\ mpos s' = mpos s.
+Proof. exact boundary_failure_is_cut. Qed.
+Print Assumptions C05_boundary_failure_is_cut.
+
+Theorem C05_boundary_full_status_forward : forall gf nm i (s : sim R),
+  mstat s = Alive -> (rank (mstat s) <= rank (mstat (boundary_act_full gf nm i s)))%nat.
+Proof. exact boundary_act_full_stat. Qed.
+Print Assumptions C05_boundary_full_status_forward.
+
+Theorem C05_boundary_full_extends_model : forall i (s : sim R),
+  boundary_act_full false false i s = boundary_act i s.
+Proof. exact boundary_act_full_ok. Qed.
+Print Assumptions C05_boundary_full_extends_model.
